@@ -48,8 +48,8 @@ def run(ctx):
         ctx.tlc_expect_ok("kv", "KeyValueMC", "KeyValue_mc_auth.cfg", timeout=3000, workers=w, name="mc-auth")
         # every action of the spec is taken in this one (coverage: a never-taken action fails the run as vacuous)
         ctx.tlc_expect_ok("kv", "KeyValueMC", "KeyValue_mc_xauth.cfg", coverage=True, timeout=3000, workers=w, name="mc-xauth")
-        ctx.tlc_expect_ok("kv", "KeyValueMC", "KeyValue_mc_local_t.cfg" if thorough else "KeyValue_mc_local.cfg",
-                          timeout=6000, workers=w, name="mc-local")
+        if thorough:  # (quick: local Sets are in mc-xauth; KeyValue_mc_local.cfg is the batches-of-1 variant for hand runs)
+            ctx.tlc_expect_ok("kv", "KeyValueMC", "KeyValue_mc_local_t.cfg", timeout=6000, workers=w, name="mc-local")
 
     # 4a. the spec must keep telling the unrepaired behaviours apart (cheap: TLC stops at the first violation)
     if thorough and not skip_mc:
